@@ -111,8 +111,9 @@ def _codec(run, repo, world, folder, rx):
                            cube_str(st)),
                        where(repo.mod(o.cls.mod), o.cls.node))
             classes_seen[o.cls] = classes_seen.get(o.cls, 0) + 1
-            if o.cls not in leaf_objs:
-                leaf_objs[o.cls] = (I, v, st)
+            shape = (o.cls, frozenset(o.f))
+            if shape not in leaf_objs:
+                leaf_objs[shape] = (I, v, st)
         nraise = sum(1 for v, _ in res if isinstance(v, Raise))
         run.ob("R-WIDTH", key + "#no-raise-leaf", nraise == 0,
                "%d of %d leaf cases end in an exception" % (nraise,
@@ -178,13 +179,17 @@ def _attrdef(run, repo, world, leaf_objs):
              "defined attributes (text rendering cannot raise "
              "AttributeError)")
     n = 0
-    for c, (I, v, st) in sorted(leaf_objs.items(),
-                                key=lambda kv: kv[0].qname):
+    seen_cls = set()
+    for (c, shape), (I, v, st) in sorted(
+            leaf_objs.items(), key=lambda kv: (kv[0][0].qname,
+                                               sorted(kv[0][1]))):
         r = c.lookup("__str__")
         if r is None:
             continue
         owner, kind, fn = r
-        n += 1
+        if c not in seen_cls:
+            n += 1
+            seen_cls.add(c)
         st2 = st.fork()
         bad = None
         try:
@@ -198,7 +203,9 @@ def _attrdef(run, repo, world, leaf_objs):
             # fall back to a syntactic attribute check
             bad = _syntactic_attr_check(c, fn, st.d(v))
         run.ob("R-ATTRDEF", c.qname + ".__str__", bad is None,
-               "str() of a decoded %s raises %s" % (c.name, bad),
+               "str() of a decoded %s raises %s for frames with %s (the "
+               "decoder set only %s)" % (c.name, bad, cube_str(st),
+                                         sorted(shape)),
                where(repo.mod(owner.mod), fn), trivial=True)
     run.floor("decodable classes with a __str__", n, 100)
 
